@@ -229,7 +229,7 @@ theorem procMkdir_owner (s s' : St) (c : Ctx) (args : Bytes) (body : Rfc.Body)
                 split at h
                 · rename_i hge
                   simp only [res, Prod.mk.injEq, Outcome.res.injEq, Rfc.Res.mk.injEq] at h
-                  exact absurd h.2.1 (getAttr_err_ne_zero hge)
+                  exact absurd h.2.1 (mapErrno_ne_zero _)
                 · rename_i s1 pre hpre
                   have hs1 : s1.fs = s.fs := by have := getAttr_fs s c.now n; rw [hpre] at this; exact this
                   split at h
@@ -242,19 +242,19 @@ theorem procMkdir_owner (s s' : St) (c : Ctx) (args : Bytes) (body : Rfc.Body)
                     have hch : Fs.chown fs1 (fsPath (joinName n.path name)) (ownerUid c sa) (ownerGid c sa) =
                         .ok (Fs.chownAt fs1 (fsPath (joinName n.path name)) e (ownerUid c sa) (ownerGid c sa)) := by
                       unfold Fs.chown; rw [hfol]
-                    simp only [invalidateForNew_fs, hch] at h
+                    simp only [chownQuiet, invalidateForNew_fs, hch] at h
                     -- the remaining steps (Lookup, GetAttr, Allocate) leave the filesystem alone
                     have hfinal : s'.fs = Fs.chownAt fs1 (fsPath (joinName n.path name)) e (ownerUid c sa) (ownerGid c sa) := by
                       split at h
                       · rename_i hle
                         simp only [res, Prod.mk.injEq, Outcome.res.injEq, Rfc.Res.mk.injEq] at h
-                        exact absurd h.2.1 (lookupPath_err_ne_zero hle)
+                        exact absurd h.2.1 (mapErrno_ne_zero _)
                       · rename_i s4 node hlk
                         have h4 := lookupPath_fs' hlk
                         split at h
                         · rename_i hge
                           simp only [res, Prod.mk.injEq, Outcome.res.injEq, Rfc.Res.mk.injEq] at h
-                          exact absurd h.2.1 (getAttr_err_ne_zero hge)
+                          exact absurd h.2.1 (mapErrno_ne_zero _)
                         · rename_i s5 post hga
                           have h5 := getAttr_fs' hga
                           simp only [res, Prod.mk.injEq] at h
@@ -312,24 +312,13 @@ theorem procSymlink_owner (s s' : St) (c : Ctx) (args : Bytes) (body : Rfc.Body)
                       split at h
                       · rename_i hge
                         simp only [res, Prod.mk.injEq, Outcome.res.injEq, Rfc.Res.mk.injEq] at h
-                        exact absurd h.2.1 (getAttr_err_ne_zero hge)
+                        exact absurd h.2.1 (mapErrno_ne_zero _)
                       · rename_i s1 pre hpre
                         have hs1 : s1.fs = s.fs := getAttr_fs' hpre
                         split at h
-                        · -- symlinkOp failed
-                          rename_i s2 st hop
+                        · -- symlinkOp failed: the reply carries the mapped error
                           simp only [res, Prod.mk.injEq, Outcome.res.injEq, Rfc.Res.mk.injEq] at h
-                          exfalso
-                          have hst : st ≠ 0 := by
-                            unfold symlinkOp at hop
-                            split at hop
-                            · simp only [Prod.mk.injEq, Except.error.injEq] at hop; omega
-                            · split at hop
-                              · rename_i e _
-                                simp only [Prod.mk.injEq, Except.error.injEq] at hop
-                                rw [← hop.2]; exact mapErrno_ne_zero e
-                              · exact lookupPath_err_ne_zero hop
-                          exact hst h.2.1
+                          exact absurd h.2.1 (mapErrno_ne_zero _)
                         · rename_i s2 node hop
                           -- symlinkOp succeeded: a new link at the joined path
                           unfold symlinkOp at hop
@@ -347,19 +336,20 @@ theorem procSymlink_owner (s s' : St) (c : Ctx) (args : Bytes) (body : Rfc.Body)
                             · simp at hop
                             · rename_i fs1 hsl
                               have h2 : s2.fs = fs1 := by
-                                have := lookupPath_fs' hop
-                                rw [this]; simp
+                                have := lookupPath_fs (invalidateForNew { s1 with fs := fs1 } n.path (joinName n.path name)) c.now (joinName n.path name)
+                                rw [hop] at this
+                                simpa using this
                               have hw := Fs.symlink_then_walk hsl
                               generalize hle : ({ kind := Fs.Kind.link, perm := 0o777, uid := 0, gid := 0, data := target, ino := s1.fs.nextIno } : Fs.Entry) = le at hw
                               have hlch : Fs.lchown s2.fs (fsPath (joinName n.path name)) (ownerUid c sa) (ownerGid c sa) =
                                   .ok (Fs.chownAt fs1 (fsPath (joinName n.path name)) le (ownerUid c sa) (ownerGid c sa)) := by
                                 unfold Fs.lchown; rw [h2, hw]
-                              simp only [hlch] at h
+                              simp only [lchownQuiet, hlch] at h
                               have hfinal : s'.fs = Fs.chownAt fs1 (fsPath (joinName n.path name)) le (ownerUid c sa) (ownerGid c sa) := by
                                 split at h
                                 · rename_i hge
                                   simp only [res, Prod.mk.injEq, Outcome.res.injEq, Rfc.Res.mk.injEq] at h
-                                  exact absurd h.2.1 (getAttr_err_ne_zero hge)
+                                  exact absurd h.2.1 (mapErrno_ne_zero _)
                                 · rename_i s4 post hga
                                   have h4 := getAttr_fs' hga
                                   simp only [res, Prod.mk.injEq] at h
